@@ -310,6 +310,23 @@ func c11Gen(t *rapid.T) MetricCase {
 			top.Grouping = level("chain-top")
 		}
 	}
+	if base.Unwrap != nil && base.Unwrap.Label == "val" && base.Unwrap.Conv == "" && rapid.IntRange(0, 5).Draw(t, "infinite-samples") == 0 {
+		// Positive infinity is a value: a sum, an average or a maximum with it is infinite whatever
+		// the order of evaluation. (Both signs would sum to NaN, and NaN under min / max / topk /
+		// a variance is not settled by the statement: one sign only, no deviations.)
+		ok := true
+		for cur := top; cur != nil; cur = cur.Inner {
+			switch cur.Op {
+			case "stddev", "stdvar", "stddev_over_time", "stdvar_over_time", "quantile_over_time":
+				ok = false
+			}
+		}
+		for i := range d.Recs {
+			if _, has := d.Recs[i].Labels["val"]; ok && has && rapid.IntRange(0, 3).Draw(t, "infinite") == 0 {
+				d.Recs[i].Labels["val"] = rapid.SampledFrom([]string{"+Inf", "Inf", "+inf"}).Draw(t, "infinite-val")
+			}
+		}
+	}
 	c.Recs = d.Recs
 	c.M = *top
 	c.Text = gen.PrintMetric(top, datagen.RapidLayout{T: t})
